@@ -278,8 +278,10 @@ def h3_value_oracle(rep, run3):
     n = 0
     for gid in sorted(run3.real):
         r = run3.real[gid]; m = run3.model.get(gid); meta = run3.meta[gid]
-        if m is None or r["skipped"] or not r["states"] or "CONFLICT" in r["diag"] or "CONFLICT" in (m.get("diag") or ""): continue
+        if m is None or not m["states"] or "CONFLICT" in (m.get("diag") or ""): continue      # the grammar as written has a conflict: not judged here
         if r["dfa"] != m["dfa"]: continue          # a lexer difference (known finding D4 or a lexer change) is C03/C04's business
+        if r["skipped"] or not r["states"] or "CONFLICT" in r["diag"]:
+            rep.tie_broken(f"H3 parser {gid}: the grammar as written is conflict-free (model) but the real parser's diagnostics report a conflict or it was not built: the parser was built for another grammar than the one written"); continue
         for j, (a, b) in enumerate(zip(r["inputs"], m["inputs"])):
             if a["res"] == "LOOP" or b["res"] == "LOOP": continue
             rep.cov["evaluations"] += 1; n += 1
